@@ -406,10 +406,22 @@ def check_seq(prop, tier):
         for i in range(n):
             # every fourth history: orders whose own price field differs from the level's (add_order does not check it)
             hs2.append(scen.seq_scenario(scen.seq_history(rng, rng.range(15, 45), nids=rng.choice([3, 4, 6]), monotone_ts=(i % 2 == 0), zero_ok=(i % 3 != 0), vary_px=(i % 4 == 1))))
+        # SCALED histories: the same kind of history with every quantity multiplied by K (2^40, or a 40-bit prime) on
+        # the way into the library and divided by K (exactly) on the way out: the library computes with 40- to 50-bit
+        # quantities and ~2^60 executed values, the recording is in the small numbers TLC evaluates
+        nsc = 60 if tier == "quick" else 1500
+        for i in range(nsc):
+            calls = scen.seq_history(rng, rng.range(15, 40), nids=rng.choice([3, 4, 6]), monotone_ts=(i % 2 == 0), zero_ok=(i % 3 != 0), vary_px=(i % 4 == 1))
+            for c in calls:
+                if c["op"] == "add" and c["o"]["kind"] == "Reserve" and c["o"]["amt"] == -1:
+                    c["o"]["amt"] = rng.choice([1, 2, 5, 80])      # the default amount (80) is a constant: it does not scale
+            sc = scen.seq_scenario(calls)
+            sc["scale"] = [1 << 40, 999999999989][i % 2]
+            hs2.append(sc)
         h2 = run_harness("level", hs2, work, "tv", timeout=3000)
         s2 = tv(h2["trace"], "MCTraceSeq", "TraceSeq", work, timeout=6000)
         res.add(traces_validated_against_impl=s2["execs"], calls_validated=s2["calls"], calls_conforming=s2["conform"],
-                tv_drifts=len(s2["drifts"]), matches=s2["matches"], trades=s2["trades"])
+                tv_drifts=len(s2["drifts"]), matches=s2["matches"], trades=s2["trades"], scaled_histories=nsc)
         classify_tv(res, s2, SEQ_MON[prop], KF_OF.get(prop, set()), lambda i: hs2[i], "recorded history", spec="seq")
         res.sample({"random_history": hs2[0]["threads"][0][:12]})
         drift = len(s["drifts"]) + len(s2["drifts"]) + mism
@@ -438,8 +450,8 @@ def check_seq(prop, tier):
             res.cov["evaluations"] = s["calls"] + s2["calls"]
             res.cov["distinct_nontrivial"] = s["execs"] + s2["execs"]
             res.cov["rule"] = "calls of recorded single-threaded histories judged by the property's per-call predicate; the model does not predict every call (drift), so the exhaustive model result does not transfer"
-        res.assumptions += ["ids unique among resting orders (driver skips adds of resting ids)", "orders carry the level's price",
-                            "quantities < 2^30 (TLC integers); 64-bit boundaries are covered by C05",
+        res.assumptions += ["ids unique among resting orders (driver skips adds of resting ids)", "the orders' own price field differs from the level's in a quarter of the random histories and in one model shape",
+                            "quantities < 2^30 in the model (TLC integers); the real code is also run with all quantities scaled by 2^40 / a 40-bit prime (results divided back exactly); per-order 64-bit boundaries are covered by C05, aggregate arithmetic over all 64-bit values by ApaAgg",
                             "bounded model: ids <= 3, history length <= %s, one kind representative per behaviour class per run" % ("4" if tier == "quick" else "5")]
         return res.finish()
     finally:
